@@ -1,0 +1,36 @@
+// SPDX-FileCopyrightText: 2026 The Pion community <https://pion.ly>
+// SPDX-License-Identifier: MIT
+
+//go:build verif
+
+package sctp
+
+import "sync/atomic"
+
+// Verification hooks, compiled only with the "verif" build tag. A runtime
+// monitor installs vfHookFn / vfYieldFn; without one they are no-ops.
+//
+// vfHook is called with the association lock held, at the event kinds below.
+// vfYield is called at existing suspension points between critical sections
+// (no association lock held) so that a monitor can widen interleavings.
+
+type vfHookFunc func(a *Association, ev int, c *chunkPayloadData)
+
+type vfYieldFunc func(a *Association, site int)
+
+var (
+	vfHookFn  atomic.Pointer[vfHookFunc]  //nolint:gochecknoglobals
+	vfYieldFn atomic.Pointer[vfYieldFunc] //nolint:gochecknoglobals
+)
+
+func vfHook(a *Association, ev int, c *chunkPayloadData) {
+	if f := vfHookFn.Load(); f != nil {
+		(*f)(a, ev, c)
+	}
+}
+
+func vfYield(a *Association, site int) {
+	if f := vfYieldFn.Load(); f != nil {
+		(*f)(a, site)
+	}
+}
